@@ -118,6 +118,19 @@ impl Subject for SList {
         if s.first() != seq.first() || s.last() != seq.last() {
             api.push("first()/last() inconsistent".into());
         }
+        {
+            let fe = s.first_entry().map(|(id, v)| (id.clone(), *v));
+            let le = s.last_entry().map(|(id, v)| (id.clone(), *v));
+            let want_f = s.iter_entries().next().map(|(id, v)| (id.clone(), *v));
+            let want_l = s.iter_entries().last().map(|(id, v)| (id.clone(), *v));
+            if fe != want_f || le != want_l {
+                api.push("first_entry()/last_entry() differ from the first / last of iter_entries()".into());
+            }
+            let consumed: Vec<u32> = s.clone().read_into::<Vec<u32>>();
+            if consumed != seq {
+                api.push("read_into() != read()".into());
+            }
+        }
         let mut set = seq.clone();
         set.sort();
         let dup = set.windows(2).any(|w| w[0] == w[1]);
@@ -221,6 +234,16 @@ impl Subject for SGList {
         }
         if s.first().map(|i| *i.value()) != seq.first().copied() || s.last().map(|i| *i.value()) != seq.last().copied() {
             api.push("first()/last() inconsistent".into());
+        }
+        {
+            let consumed: Vec<u32> = s.clone().read_into::<Vec<u32>>();
+            if consumed != seq {
+                api.push("read_into() != read()".into());
+            }
+            let iv: Vec<u32> = s.iter().map(|id| id.clone().into_value()).collect();
+            if iv != seq {
+                api.push("Identifier::into_value() != value()".into());
+            }
         }
         let mut set = seq.clone();
         set.sort();
